@@ -520,3 +520,111 @@ def r5_no_global_state(ctx) -> None:
                     elif isinstance(p, ast.Attribute) and p.attr in ("discard", "remove", "pop", "clear", "difference_update"):
                         ctx.violation("R5", parent(p), f"`{attr}` shrinks: work already done is forgotten and repeated after resumption")
     ctx.ok("R5", "the 'already done' sets only grow")
+
+
+# ------------------------------------------------------------------------ R6 / R7
+def _unordered_value(v: Optional[ast.AST], ann: Optional[ast.AST]) -> bool:
+    if ann is not None and any(isinstance(x, ast.Name) and x.id in ("Set", "FrozenSet", "AbstractSet", "MutableSet", "set", "frozenset") for x in ast.walk(ann)):
+        return True
+    if v is None:
+        return False
+    if isinstance(v, (ast.Set, ast.SetComp)):
+        return True
+    return isinstance(v, ast.Call) and isinstance(v.func, ast.Name) and v.func.id in ("set", "frozenset")
+
+
+def r6_queue_order_survives(ctx) -> None:
+    """Pickle rebuilds a set from its elements; the order in which a set hands out its
+    elements (pop, iteration) depends on its history and does not survive.  The containers the
+    queue takes the next label from must therefore be ordered ones (deque, list, Counter/dict)."""
+    P = ctx.P
+    base = P.need_class("CSSQueue")
+    n = 0
+    for cls in P.subclasses(base, strict=False):
+        attrs: Dict[str, List[Tuple[ast.AST, Optional[ast.AST], Optional[ast.AST]]]] = {}
+        for k in P.mro(cls):
+            for m in k.methods.values():
+                for a in walk_local(m.node):
+                    tv = None
+                    if isinstance(a, ast.Assign) and len(a.targets) == 1:
+                        tv = (a.targets[0], a.value, None)
+                    elif isinstance(a, ast.AnnAssign):
+                        tv = (a.target, a.value, a.annotation)
+                    if tv and is_self_attr(tv[0]):
+                        attrs.setdefault(tv[0].attr, []).append((a, tv[1], tv[2]))
+        unordered = {a for a, defs in attrs.items() if any(_unordered_value(v, ann) for _, v, ann in defs)}
+        for a in sorted(attrs):
+            n += 1
+        for m in cls.methods.values():
+            for c in walk_local(m.node):
+                hit = None
+                if isinstance(c, ast.Call) and isinstance(c.func, ast.Attribute) and c.func.attr == "pop" and not c.args and is_self_attr(c.func.value) \
+                        and c.func.value.attr in unordered:
+                    hit = (c, c.func.value.attr, "pop()")
+                elif isinstance(c, ast.For) and is_self_attr(c.iter) and c.iter.attr in unordered:
+                    hit = (c.iter, c.iter.attr, "iteration")
+                elif isinstance(c, ast.comprehension) and is_self_attr(c.iter) and c.iter.attr in unordered:
+                    hit = (c.iter, c.iter.attr, "iteration")
+                elif isinstance(c, ast.Call) and isinstance(c.func, ast.Name) and c.func.id in ("iter", "list", "tuple", "deque", "next") and c.args \
+                        and is_self_attr(c.args[0]) and c.args[0].attr in unordered:
+                    hit = (c, c.args[0].attr, f"{c.func.id}()")
+                elif isinstance(c, ast.Call) and isinstance(c.func, ast.Attribute) and c.func.attr in ("extend", "extendleft", "update") and c.args \
+                        and is_self_attr(c.args[0]) and c.args[0].attr in unordered and not (is_self_attr(c.func.value) and c.func.value.attr in unordered):
+                    hit = (c, c.args[0].attr, f".{c.func.attr}()")
+                if hit:
+                    ctx.violation("R6", hit[0], f"{m.qualname} takes labels out of the set `self.{hit[1]}` by {hit[2]}: the order a set hands out its elements depends on its "
+                                  "insert/remove history, which pickle does not keep, so a restored queue equal to the original yields the work in another order")
+    if n < 5:
+        ctx.floor("R6", 99)
+    else:
+        ctx.ok("R6", f"{n} queue attributes: no label is taken out of an unordered container by position")
+
+
+def r7_optional_numbers_tested_for_none(ctx, functions: Tuple[Tuple[str, str], ...]) -> None:
+    """A limit of 0 is a limit.  Parameters declared Optional[int/float] are tested with
+    `is None` / `is not None`, never by truth value."""
+    P = ctx.P
+    for cname, mname in functions:
+        m = P.need_method(cname, mname, own=True)
+        f = m.node
+        ctx.analysed(m)
+        a = f.args
+        opt = set()
+        for p in a.posonlyargs + a.args + a.kwonlyargs:
+            if p.annotation is None:
+                continue
+            s = norm(p.annotation)
+            if s.startswith("Optional[") and s[9:-1] in ("int", "float", "Union[int, float]", "Union[float, int]"):
+                opt.add(p.arg)
+        if not opt:
+            raise AnalysisError(f"R7: {m.qualname} has no Optional[int/float] parameter any more")
+
+        def truth_uses(e, out):
+            if isinstance(e, ast.Name) and e.id in opt:
+                out.append(e)
+            elif isinstance(e, ast.BoolOp):
+                for v in e.values:
+                    truth_uses(v, out)
+            elif isinstance(e, ast.UnaryOp) and isinstance(e.op, ast.Not):
+                truth_uses(e.operand, out)
+
+        bad = []
+        for n in walk_local(f):
+            tests = []
+            if isinstance(n, (ast.If, ast.While, ast.IfExp, ast.Assert)):
+                tests.append(n.test)
+            elif isinstance(n, ast.BoolOp):
+                tests.extend(n.values[:-1])
+            elif isinstance(n, ast.comprehension):
+                tests.extend(n.ifs)
+            for t in tests:
+                truth_uses(t, bad)
+        seen = set()
+        for e in bad:
+            if id(e) in seen:
+                continue
+            seen.add(id(e))
+            ctx.violation("R7", e, f"{m.qualname} tests the optional limit `{e.id}` by truth value: 0 is a legal limit (stop at the first opportunity) and is treated as "
+                          "'no limit', so the search is never interrupted there")
+        if not bad:
+            ctx.ok("R7", f"{m.qualname}: optional limits {sorted(opt)} are compared with None, never tested by truth value")
